@@ -31,6 +31,10 @@ def runs(tier):
     # sweeps on objects whose cores are views with unusual memory layouts (results of rank_transpose / transpose)
     out.append(dict(name='gview', constants=dict(base, MaxD=3, RanksS={2, 3}, Scenarios={'single'}, MaxDepth=2, Lean=True,
                                                  OpsAt=[{'RankTranspose', 'Transpose'}, OPS], KindPairs={('real', 'real')})))
+    # trains the caller built from one array object at several positions (fill "rep"): the library's copy owns its arrays, a
+    # sweep on the copy touches neither the original nor itself twice
+    out.append(dict(name='repcopy', constants=dict(base, MaxD=4, DimsR={2, 3}, DimsC={1}, RanksS={1, 2}, Scenarios={'single'}, MaxDepth=2, Lean=True,
+                                                   OpsAt=[{'Copy'}, OPS], KindPairs={('rep', 'rep')})))
     # stale-state histories: a sweep, an overwriting call that destroys the gauge, the same sweep again
     out.append(dict(name='stale3', constants=dict(base, MaxD=3, DimsR={2}, DimsC={1, 2}, RanksS={2}, Scenarios={'single'}, MaxDepth=3,
                                                   OWs={True}, Lean=True,
